@@ -116,7 +116,9 @@ func c05FnPrograms(thorough bool, f func(fam, src string) bool) bool {
 	}
 	// repeated parameter names (rejected by the parser: the same verdict in both configurations)
 	for _, src := range []string{"func f(p, p) { p }\nprintln(f(1, 2))", "f = (p, p) => p + 1\nprintln(f(1, 2))", "func f(p, q, p) { [p, q] }\nprintln(f(1, 2, 3))",
-		"f = func(p, p) { p = p + 1; p }\nprintln(f(1, 2.5))", "func f(p, .., p) { p }\nprintln(f(1, 2))", "m = macro(p, p) { quote(unquote(p)) }\nprintln(m(1, 2))"} {
+		"f = func(p, p) { p = p + 1; p }\nprintln(f(1, 2.5))",
+		// names of extension functions as integer parameters and loop variables
+		"func f(max) { max }\nprintln(f(3))", "func f(a, len2, min) { [a, min] }\nprintln(f(1, 2, 3))", "for max = 3 { println(max) }", "func f() { for sin = 2 { println(sin) } }\nf()", "f = min => min + 1\nprintln(f(2))", "func f(p, .., p) { p }\nprintln(f(1, 2))", "m = macro(p, p) { quote(unquote(p)) }\nprintln(m(1, 2))"} {
 		if !f("fn", src) {
 			return false
 		}
